@@ -619,7 +619,8 @@ def static_obligations(run):
         run.oblige(nm, ok and nm in res, "static theorem (coq/theories/C16/Props.v)")
         if ok and nm in res and not res[nm].startswith("Closed"):
             for m in re.finditer(r"([A-Za-z_][\w.]*)\s*:", res[nm]):
-                run.axioms.add(m.group(1))
+                if m.group(1) != "Axioms":
+                    run.axioms.add(m.group(1))
     run.checker_cmds.append("make -C coq theories/C16/Props.vo ; coqc _build/assumptions/C16_Props_pa.v")
     run.notes["static_theorems"] = res
 
